@@ -20,3 +20,39 @@ func (s *Sidecar) VerifBitmap() []byte { return s.MarshalBitmap() }
 func VerifFileKey(it manifest.FileItem) uint64 { return fileKeyForItem(it) }
 
 func VerifReadControlHeader(s Stream) (manifest.Manifest, error) { return readControlHeader(s) }
+
+// VerifSendInfo is a snapshot of a sendFileState for the C17 oracle.
+type VerifSendInfo struct {
+	Key           uint64
+	TotalChunks   uint32
+	PlanKnown     bool
+	ForceSendFrom uint32
+	Present       []bool
+	VerifyPending bool
+	ResendPending bool
+	ResendChunk   uint32
+	EndSent       bool
+	InFlight      int
+	ScheduleDone  bool
+}
+
+// VerifSendState snapshots a *sendFileState handed to a probe.
+func VerifSendState(v any) (VerifSendInfo, bool) {
+	s, ok := v.(*sendFileState)
+	if !ok || s == nil {
+		return VerifSendInfo{}, false
+	}
+	in := VerifSendInfo{Key: s.key, TotalChunks: s.totalChunks, VerifyPending: s.verifyPending, ResendPending: s.resendPending,
+		ResendChunk: s.resendChunk, EndSent: s.endSent, InFlight: s.inFlight, ScheduleDone: s.scheduleDone}
+	if s.plan != nil {
+		in.PlanKnown = true
+		in.ForceSendFrom = s.plan.forceSendFrom
+		if s.plan.bitmap != nil {
+			in.Present = make([]bool, s.totalChunks)
+			for i := range in.Present {
+				in.Present[i] = s.plan.bitmap.Get(i)
+			}
+		}
+	}
+	return in, true
+}
